@@ -1,4 +1,5 @@
 INIT Init
 NEXT Next
 CONSTANTS
-  MaxLen = 4
+  MaxLen = 3
+  NTexts = 6
